@@ -20,9 +20,24 @@ def _excs():
     return WebSocketProtocolException, WebSocketPayloadException, WebSocketConnectionClosedException
 
 
-def g_one(n, control_frame):
+def g_one(n, control_frame, logging_on=False):
     """single ping with an n-byte symbolic payload followed by a text message"""
     quiet_logging()
+    if logging_on:
+        import io
+        import logging
+        import websocket
+        websocket.enableTrace(True, handler=logging.StreamHandler(io.StringIO()), level="DEBUG")
+    try:
+        _g_one(n, control_frame)
+    finally:
+        if logging_on:
+            import websocket
+            websocket.enableTrace(False)
+            quiet_logging()
+
+
+def _g_one(n, control_frame):
     Proto, Payload, Closed = _excs()
     p = sx.sym_bytes("p", n)
     key = sx.sym_bytes("k", 4)
@@ -137,6 +152,7 @@ def g_long(n):
 def obligations(tier):
     thorough = tier == "thorough"
     one = [dict(n=n, control_frame=cf) for n in range(0, 126) for cf in (False, True)]
+    one += [dict(n=n, control_frame=cf, logging_on=True) for n in (0, 1, 2, 4) for cf in (False, True)]  # trace/debug logging on
     shapes = []
     base = [["P", "T"], ["T", "P", "T"], ["P", "P", "T"], ["O", "P", "T"], ["F0", "P", "F1"], ["F0", "P", "FC", "P", "F1"],
             ["P", "F0", "O", "P", "F1", "P"], ["F0", "O", "F1"], ["T", "O", "T"], ["P", "P", "P"], ["F0", "P", "P", "F1", "T"]]
